@@ -127,6 +127,146 @@ def run_one(case):
         return dict(desc, kind='exception', error='%s: %s' % (type(e).__name__, str(e)[:200]))
 
 
+# ---- histories with sparse partials: the linearization point (and complex-step mode) changes between products ----
+SN = 4
+SROWS = np.array([0, 1, 1, 2, 2, 3, 3])
+SCOLS = np.array([0, 0, 1, 1, 2, 2, 3])
+
+
+def sparse_history(case):
+    """y[i] = x[i]**3 + a x[i] x[i-1] with dy/dx declared as fmt (csr / csc / coo / rows_cols / dense) and refreshed by
+    `update` (inplace_data: partials[...].data[:] = ..., assign_sparse: a new sparse matrix, assign_data: the nonzeros,
+    fd / cs: approximated into the declared pattern); history: point 0, [a pass under complex step], point 1, point 2.
+    At every point: <w, J v> == <J^T w, v> for the component's and the model's apply_linear, and rev totals == fwd totals
+    == analytic."""
+    import openmdao.api as om
+    import scipy.sparse as sp
+    fmt, update, with_cs, flow = case
+    desc = dict(partial_format=fmt, update=update, complex_step_pass_between=with_cs, flow=flow)
+    pat = sp.coo_matrix((np.ones(SROWS.size), (SROWS, SCOLS)), shape=(SN, SN))
+
+    def dense_jac(x, a):
+        d = np.zeros((SN, SN), dtype=x.dtype)
+        idx = np.arange(SN)
+        d[idx, idx] = 3.0 * x ** 2
+        d[idx[1:], idx[1:]] += a * x[:-1]
+        d[idx[1:], idx[:-1]] = a * x[1:]
+        return d
+
+    class Banded(om.ExplicitComponent):
+        def setup(self):
+            self.add_input('x', np.ones(SN))
+            self.add_input('a', 1.0)
+            self.add_output('y', np.ones(SN))
+            kw = {}
+            if update in ('fd', 'cs'):
+                kw['method'] = update
+            if fmt == 'rows_cols':
+                self.declare_partials('y', 'x', rows=SROWS, cols=SCOLS, **kw)
+            elif fmt == 'dense':
+                self.declare_partials('y', 'x', **kw)
+            else:
+                self.declare_partials('y', 'x', val=getattr(pat, 'to' + fmt)(), **kw)
+            self.declare_partials('y', 'a', **kw)
+
+        def compute(self, inputs, outputs):
+            x, a = inputs['x'], inputs['a']
+            y = x ** 3
+            y[1:] += a * x[1:] * x[:-1]
+            outputs['y'] = y
+
+        def compute_partials(self, inputs, partials):
+            if update in ('fd', 'cs'):
+                return
+            x, a = inputs['x'], inputs['a']
+            d = dense_jac(x, a)
+            if fmt == 'dense':
+                partials['y', 'x'] = d
+            elif fmt == 'rows_cols' or update == 'assign_data':
+                if fmt in ('rows_cols', 'coo'):
+                    partials['y', 'x'] = d[SROWS, SCOLS]
+                else:
+                    m = getattr(sp.coo_matrix((np.arange(1.0, SROWS.size + 1), (SROWS, SCOLS)), shape=(SN, SN)), 'to' + fmt)()
+                    order = (m.data - 1).astype(int)                     # storage order of the format
+                    partials['y', 'x'] = d[SROWS, SCOLS][order]
+            elif update == 'inplace_data':
+                cur = partials['y', 'x']
+                coo = cur.tocoo()
+                cur.data[:] = d[coo.row, coo.col] if fmt != 'coo' else d[cur.row, cur.col]
+            else:       # assign_sparse
+                partials['y', 'x'] = getattr(sp.coo_matrix((d[SROWS, SCOLS], (SROWS, SCOLS)), shape=(SN, SN)), 'to' + fmt)()
+            dyda = np.zeros(SN, dtype=x.dtype)
+            dyda[1:] = x[1:] * x[:-1]
+            partials['y', 'a'] = dyda
+
+    class Post(om.ExplicitComponent):
+        def setup(self):
+            self.add_input('y', np.ones(SN))
+            self.add_output('z', np.ones(SN))
+            self.declare_partials('z', 'y', rows=np.arange(SN), cols=np.arange(SN), val=2.0)
+
+        def compute(self, inputs, outputs):
+            outputs['z'] = 2.0 * inputs['y']
+
+    def build(mode):
+        p = om.Problem(reports=False)
+        p.model.add_subsystem('ivc', om.IndepVarComp('x', np.linspace(0.5, 2.0, SN)), promotes=['*'])
+        p.model.add_subsystem('ivc_a', om.IndepVarComp('a', 0.7), promotes=['*'])
+        p.model.add_subsystem('band', Banded(), promotes=['*'])
+        p.model.add_subsystem('post', Post(), promotes=['*'])
+        p.model.add_design_var('x')
+        p.model.add_design_var('a')
+        p.model.add_constraint('z', upper=1000.0)
+        p.setup(mode=mode, force_alloc_complex=True)
+        return p
+
+    def gap(system, rng, is_model):
+        d_inputs, d_outputs, d_residuals = system.get_linear_vectors()
+        v_in, v_out, w = rng.standard_normal(len(d_inputs)), rng.standard_normal(len(d_outputs)), rng.standard_normal(len(d_residuals))
+        d_inputs.set_val(v_in); d_outputs.set_val(v_out); d_residuals.set_val(0.0)
+        system.run_apply_linear('fwd')
+        Jv = d_residuals.asarray(copy=True)
+        d_inputs.set_val(0.0); d_outputs.set_val(0.0); d_residuals.set_val(w)
+        system.run_apply_linear('rev')
+        lhs = w.dot(Jv)
+        rhs = d_outputs.asarray().dot(v_out) + (0.0 if is_model else d_inputs.asarray().dot(v_in))
+        return abs(lhs - rhs) / max(abs(lhs), abs(rhs), 1.0)
+    try:
+        rng = np.random.default_rng(5)
+        probs = {m: build(m) for m in ('rev', 'fwd')}
+        points = [(np.linspace(0.5, 2.0, SN), 0.7), (np.array([-1.2, 0.4, 2.5, 1.1]), -1.9), (np.array([0.3, -0.7, 1.5, 2.2]), 0.45)]
+        tol = 1e-4 if update == 'fd' else 1e-9
+        for k, (x, a) in enumerate(points):
+            J = {}
+            for m, p in probs.items():
+                p.set_val('x', x)
+                p.set_val('a', a)
+                p.run_model()
+                if m == 'rev' and flow != 'totals':          # (a rev-mode set-up has the transfers of both directions)
+                    p.model.run_linearize()
+                    for system, is_model in ((p.model.band, False), (p.model, True)):
+                        g = gap(system, rng, is_model)
+                        if g > 1e-10:
+                            return dict(desc, kind='<w, J v> != <J^T w, v> for apply_linear', system=system.pathname or '<model>', point=k, setup_mode=m, rel_gap=float(g))
+                if flow != 'ops':
+                    J[m] = p.compute_totals(of=['z'], wrt=['x', 'a'], return_format='array')
+            exp = 2.0 * np.hstack([dense_jac(x, a), np.concatenate([[0.0], x[1:] * x[:-1]])[:, None]])
+            for m in J:
+                if not np.allclose(J[m], exp, rtol=tol, atol=tol):
+                    return dict(desc, kind='%s-mode totals differ from the analytic jacobian' % m, point=k, max_abs_err=float(np.max(np.abs(J[m] - exp))))
+            if J and not np.allclose(J['fwd'], J['rev'], rtol=1e-9 if update != 'fd' else 1e-6, atol=1e-9 if update != 'fd' else 1e-6):
+                return dict(desc, kind='fwd and rev totals differ (operators are not adjoint)', point=k, max_abs_diff=float(np.max(np.abs(J['fwd'] - J['rev']))))
+            if with_cs and k == 0:
+                for p in probs.values():
+                    p.set_complex_step_mode(True)
+                    p.run_model()
+                    p.model.run_linearize()
+                    p.set_complex_step_mode(False)
+        return dict(ok=True)
+    except Exception as e:      # noqa
+        return dict(desc, kind='exception', error='%s: %s' % (type(e).__name__, str(e)[:200]))
+
+
 def main(tier):
     big = tier != 'quick'
     cases = []
@@ -143,8 +283,21 @@ def main(tier):
     import multiprocessing as mp
     with mp.get_context('fork').Pool(16) as pool:
         res = pool.map(run_one, cases, chunksize=2)
+    hcases = []
+    for fmt in ('csr', 'csc', 'coo', 'rows_cols', 'dense'):
+        for update in ('inplace_data', 'assign_sparse', 'assign_data', 'fd', 'cs'):
+            if fmt in ('rows_cols', 'dense') and update in ('inplace_data', 'assign_sparse'):
+                continue
+            if fmt in ('csr', 'csc', 'coo') and update == 'assign_data':
+                continue        # refused by OpenMDAO (an ndarray cannot be assigned to a sparse sub-jacobian)
+            for with_cs in (False, True):
+                for flow in ('ops', 'totals', 'both'):       # operator products only / compute_totals only / interleaved
+                    hcases.append((fmt, update, with_cs, flow))
+    with mp.get_context('fork').Pool(16) as pool:
+        hres = pool.map(sparse_history, hcases, chunksize=1)
+    res = list(res) + list(hres)
     fails = [r for r in res if not r.get('ok')]
-    print(json.dumps({'evaluations': len(cases) * 4, 'distinct_nontrivial': sum(1 for r in res if r.get('ok')), 'n_failures': len(fails), 'failures': fails[:30],
+    print(json.dumps({'evaluations': len(cases) * 4 + len(hcases) * 4, 'sparse_partial_histories': len(hcases), 'distinct_nontrivial': sum(1 for r in res if r.get('ok')), 'n_failures': len(fails), 'failures': fails[:30],
                       'samples': [dict(n=c[0], solver=c[1], rhs_checking=c[2], assembled_jac_type=c[3], g_coefficients=list(c[4]), units=list(c[5])) for c in cases[5:8]]}, default=str))
 
 
